@@ -248,6 +248,49 @@ def _check_numerical(eng, R, f):
                 rets = [norm.ctxt(r.value, env) for r in ast.walk(f.node) if isinstance(r, ast.Return) and r.value is not None and not any(r in list(ast.walk(d)) for d in ast.walk(f.node) if isinstance(d, ast.FunctionDef) and d is not f.node)]
                 ok = len(arrs) == 1 and rets == [next(iter(arrs))] or (len(arrs) == 1 and all(r == norm.ctxt(ast.Name(id=next(iter(arrs)), ctx=ast.Load()), env) for r in rets) and bool(rets))
                 why = "the array of integrals is not what the rule returns"
+    if not loops:
+        # the same thing as one expression: [quad(<density>, a, b)[0] for a, b in zip(edges[:-1], edges[1:])] (every pair, in order, unfiltered), returned as an array
+        comps = []
+        for c in ast.walk(f.node):
+            if isinstance(c, ast.ListComp) and len(c.generators) == 1:
+                gen = c.generators[0]
+                it = norm.closed(gen.iter, env)
+                tg = gen.target
+                if isinstance(it, ast.Call) and isinstance(it.func, ast.Name) and it.func.id == "enumerate" and it.args and isinstance(tg, ast.Tuple) and len(tg.elts) == 2:
+                    it, tg = it.args[0], tg.elts[1]
+                if isinstance(it, ast.Call) and isinstance(it.func, ast.Name) and it.func.id == "zip" and [norm.txt(a) for a in it.args] == ["self._bin_edges[:-1]", "self._bin_edges[1:]"]:
+                    comps.append((c, gen, tg))
+        ok = len(comps) == 1
+        if ok:
+            c, gen, tg = comps[0]
+            ab = [x.id for x in tg.elts] if isinstance(tg, ast.Tuple) and all(isinstance(x, ast.Name) for x in tg.elts) else []
+            e = c.elt
+            q = e.value if isinstance(e, ast.Subscript) and norm.txt(e.slice) == "0" else None
+            ok = False
+            why = "the density is not integrated with quad(<density>, lower, upper)[0] over the comprehension's own edge pair"
+            if isinstance(q, ast.Call) and norm.txt(q.func).endswith("quad") and len(ab) == 2:
+                kw = {k.arg: k.value for k in q.keywords}
+                args = list(q.args) + [None] * 3
+                fn_ = args[0] if args[0] is not None else kw.get("func")
+                a_ = args[1] if args[1] is not None else kw.get("a")
+                b_ = args[2] if args[2] is not None else kw.get("b")
+                fr_ = common.resolve_local(f.node, fn_) if fn_ is not None else None
+                dens = (fr_ is not None and norm.txt(fr_) == "self.eval_model_function_density") \
+                    or (isinstance(fn_, ast.Lambda) and len(fn_.args.args) == 1 and norm.txt(fn_.body) == "self.eval_model_function_density(%s)" % fn_.args.args[0].arg)
+                ok = bool(dens) and a_ is not None and b_ is not None and norm.txt(a_) == ab[0] and norm.txt(b_) == ab[1]
+            every = not gen.ifs
+            if ok:
+                rets = [norm.closed(r.value, env) for r in ast.walk(f.node) if isinstance(r, ast.Return) and r.value is not None]
+                ctext = norm.txt(norm.closed(c, env))
+
+                def is_result(r):
+                    # the list itself, or np.array / np.asarray of it
+                    if norm.txt(r) == ctext:
+                        return True
+                    return isinstance(r, ast.Call) and norm.txt(r.func) in ("np.array", "np.asarray", "numpy.array", "numpy.asarray") and r.args and norm.txt(r.args[0]) == ctext
+
+                ok = bool(rets) and all(is_result(r) for r in rets)
+                why = "the array of integrals is not what the rule returns"
     R.ob("H-geom", "%s._bin_evaluation_numerical" % M, ok, (f.file, f.lineno), "numerical evaluation must integrate the density over each (lower, upper) edge pair: %s" % why)
     R.ob("H-geom", "%s._bin_evaluation_numerical:every bin" % M, ok and every, (f.file, f.lineno),
          "an iteration of the bin loop can finish without integrating the density over the bin (guard / continue before the store): the content of such bins stays 0")
